@@ -6,7 +6,8 @@ hand) and the translated code is compared with those by `bv_decide`.
 -/
 import CanVerif.Model.Compile
 import CanVerif.Model.DbcParse
-import CanVerif.Bridge.DataGo
+import CanVerif.Gen.DataGo
+import Std.Tactic.BVDecide
 
 namespace CanVerif.Bridge
 open CanVerif CanVerif.Gen.Go
